@@ -98,6 +98,8 @@ pub open spec fn given_out_unsolved_b(def: Seq<bool>, out: u32, b: u32, hints: S
 }
 pub uninterp spec fn horner_accumulator_is_the_previous_rows_output_or_zero<F>(ops: Seq<Op<F>>, i: int) -> bool;
 pub uninterp spec fn created_by_a_coeff_lookup_row<F>(ops: Seq<Op<F>>, i: int, w: u32) -> bool;
+/// what the Const table's committed (preprocessed) data would have to determine: the constant's value
+pub uninterp spec fn const_row_commits_the_value_of<F>(op: Op<F>, committed: F) -> bool;
 /// the slot a Const / Public row creates
 pub open spec fn cp_out<F>(op: Op<F>) -> Option<u32> { match op { Op::Const { out, .. } => Some(out.0), Op::Public { out, .. } => Some(out.0), _ => None } }
 pub open spec fn one_creator(c: Cnt) -> bool { forall|s: u32| 0 <= #[trigger] c(s) <= 1 }
@@ -164,7 +166,7 @@ def discriminants():
 
 
 def build():
-    u = Unit('prep', ['C09', 'C04', 'C12'])
+    u = Unit('prep', ['C09', 'C04', 'C12', 'C11'])
     u.rlimit = 200
     u.assume('non-primitive plugin preprocessing is opaque: it may only add reads (each ext_reads increment it makes is a read by its own table)')
     u.assume('flag values 0, 1, 2 are distinct field elements; base_field_index is injective below the stated witness-count bound (not under contract)')
@@ -271,7 +273,9 @@ def build():
     g.loop('for q_ in 0..self.private_input_rows.len()', invariants=[('t', 'true')])
 
     # ---- Const / Public arms: the row is a creator of `out`
-    g.after('preprocessed.primitive[0usize].push(idx);', 'proof { creators = inc(creators, out.0); }')
+    # C11 (constant op kind): the defining relation of a Const row is `out = val`; the verifying data of the Const table is its preprocessed row, which carries the slot index only
+    # (the value is a main-trace column the prover fills): finding C11-const-values-unbound
+    g.after('preprocessed.primitive[0usize].push(idx);', 'proof { creators = inc(creators, out.0); assert(const_row_commits_the_value_of(self.ops@[oi_ as int], idx)); } // @@A:H_the_preprocessed_row_of_a_constant_commits_its_value')
     g.after('preprocessed.primitive[1usize].push(idx);', 'proof { creators = inc(creators, out.0); }')
     g.after('defined[out_idx] = true;', '''proof {
                     // NOT established when the slot already has a creator (connected constants / public inputs): known finding C09-two-creators
